@@ -631,14 +631,14 @@ func c08R7(c *Ctx) {
 	n := 0
 	for _, fn := range p.AllFuncs() {
 		info := fn.Info()
-		ast.Inspect(fn.Decl.Body, func(nd ast.Node) bool {
+		walkWithLits(fn.Decl.Body, func(nd ast.Node, lits []*ast.FuncLit) {
 			is, ok := nd.(*ast.IfStmt)
 			if !ok {
-				return true
+				return
 			}
 			call, ok := ast.Unparen(is.Cond).(*ast.CallExpr)
 			if !ok || calleeName(info, call) != "ErrorCodeIs" {
-				return true
+				return
 			}
 			tests := false
 			for _, a := range call.Args {
@@ -647,12 +647,18 @@ func c08R7(c *Ctx) {
 				}
 			}
 			if !tests {
-				return true
+				return
 			}
 			// pure classifiers (func(error) bool) are not cloud-call error arms
-			if sig := fn.Obj.Type().(*types.Signature); sig.Results().Len() == 1 {
+			sig := fn.Obj.Type().(*types.Signature)
+			if len(lits) > 0 {
+				if ls, ok := info.TypeOf(lits[len(lits)-1]).(*types.Signature); ok {
+					sig = ls
+				}
+			}
+			if sig.Results().Len() == 1 {
 				if b, ok := sig.Results().At(0).Type().Underlying().(*types.Basic); ok && b.Kind() == types.Bool {
-					return true
+					return
 				}
 			}
 			n++
@@ -666,10 +672,9 @@ func c08R7(c *Ctx) {
 			// arms that only classify (errorHandleLocked sets the inhibit deadline instead) are listed
 			if fn.Key() == eniPkg+".Local.errorHandleLocked" {
 				c.OK("C08.R7", "exhaustion arm in "+fn.Key()+" (inhibit deadline instead of Block: the node pool has no vSwitch choice per request)", p.Pos(is), fn.Key(), "listed exception")
-				return true
+				return
 			}
 			c.Check(blocks, "C08.R7", "exhaustion arm in "+fn.Key()+" blocks the vSwitch", p.Pos(is), fn.Key(), "if ErrorCodeIs(err, InvalidVSwitchIDIPNotEnough, …) { vswpool.Block(<vsw>) }", "no SwitchPool.Block in the arm")
-			return true
 		})
 	}
 	c.Floor("C08.R7", "exhaustion-code arms", 4, n)
